@@ -27,6 +27,16 @@ theorem exArena_fresh : Fresh exArena 1 65536 64 := by
 /-- an allocator for the loader -/
 def exAlloc (i : Nat) : Nat := 1048576 * (i + 1)
 
+/-- two buffers: buffer 0 is one registered pointer holding NULL; the last 8 bytes of buffer 1 (the last buffer) happen to
+    read as the relocation entry (buffer 0, offset 0) -/
+def exArena2 : Arena :=
+  { bufs := [ { data := [0, 0, 0, 0, 0, 0, 0, 0], cap := 8, base := 8192 },
+              { data := [7, 7, 7, 7, 0, 0, 0, 0, 0, 0, 0, 0], cap := 16, base := 4096 } ],
+    relocs := [⟨0, 0⟩], init := 8 }
+
+theorem exArena2_wf : WF exArena2 := by
+  refine ⟨by decide, ⟨by decide, by decide, by decide⟩, by decide, by decide, by decide⟩
+
 /-- a client session touching every kind of operation: a struct with two pointer fields; a pointer stored in
     one of them; allocations that make both the pointed-to buffer and the buffer holding the slot grow before the
     slot is read back; a pointer written and registered in one step at an unaligned offset, moved again, read
